@@ -2,10 +2,10 @@
 //! regression data; emits Coq cases for C11/Corr.v (bit-exact replay of coordinate descent +
 //! exact-rational optimality oracle) and evaluates a few metamorphic oracles on the Rust side.
 use linfa::prelude::*;
-use linfa::Dataset;
+use linfa::{Dataset, DatasetBase};
 use linfa_elasticnet::{ElasticNet, ElasticNetParams, MultiTaskElasticNet, MultiTaskElasticNetParams};
 use linfa_linear::LinearRegression;
-use ndarray::{Array1, Array2, ShapeBuilder};
+use ndarray::{s, Array1, Array2, ArrayBase, ArrayView1, ArrayView2, Data as NdData, Ix1, Ix2, ShapeBuilder};
 use vh::*;
 
 // ---------------------------------------------------------------------------------------------
@@ -13,24 +13,26 @@ use vh::*;
 // ---------------------------------------------------------------------------------------------
 #[derive(Clone, Debug)]
 struct Data {
-    x: Vec<Vec<f64>>, // n rows of p features
-    y: Vec<Vec<f64>>, // n rows of t targets
+    x: Vec<Vec<f64>>, // n rows of p features (logical data)
+    y: Vec<Vec<f64>>, // n rows of t targets (logical data)
     fam: u64,
-    forder: bool, // records stored column-major (columns contiguous)
+    lx: u8,   // memory layout of the records, see LAYOUTS
+    ly: u8,   // memory layout of the targets
+    lq: u8,   // memory layout of the query batch
+    sk: i32,  // the problem was scaled by 2^sk
+    sm: u8,   // 0 not scaled, 1 joint (records, targets by s, penalty by s^2), 2 targets only (targets by s, l1 penalty by s)
 }
+/// memory layouts, always of the SAME logical data
+const LAYOUTS: [&str; 7] = ["c", "f", "revrows_view", "revrows_owned", "revcols_view", "revcols_owned", "step2_view"];
 impl Data {
+    fn new(x: Vec<Vec<f64>>, y: Vec<Vec<f64>>, fam: u64, forder: bool) -> Data {
+        Data { x, y, fam, lx: if forder { 1 } else { 0 }, ly: 0, lq: 0, sk: 0, sm: 0 }
+    }
     fn n(&self) -> usize { self.x.len() }
     fn p(&self) -> usize { if self.x.is_empty() { 0 } else { self.x[0].len() } }
     fn t(&self) -> usize { if self.y.is_empty() { 0 } else { self.y[0].len() } }
     fn xa(&self) -> Array2<f64> {
-        let (n, p) = (self.n(), self.p());
-        if self.forder {
-            let mut v = Vec::with_capacity(n * p);
-            for j in 0..p { for i in 0..n { v.push(self.x[i][j]); } }
-            Array2::from_shape_vec((n, p).f(), v).unwrap()
-        } else {
-            Array2::from_shape_vec((n, p), self.x.iter().flatten().cloned().collect()).unwrap()
-        }
+        Array2::from_shape_vec((self.n(), self.p()), self.x.iter().flatten().cloned().collect()).unwrap()
     }
     fn ya2(&self) -> Array2<f64> {
         Array2::from_shape_vec((self.n(), self.t()), self.y.iter().flatten().cloned().collect()).unwrap()
@@ -38,8 +40,95 @@ impl Data {
     fn ya1(&self) -> Array1<f64> { Array1::from(self.y.iter().map(|r| r[0]).collect::<Vec<f64>>()) }
     /// every feature column sums to zero exactly (decided in exact integer arithmetic on the scaled mantissas)
     fn centred(&self) -> bool { (0..self.p()).all(|j| exact_sum_is_zero(&self.x.iter().map(|r| r[j]).collect::<Vec<_>>())) }
-    fn col_contig(&self) -> bool { self.forder || self.p() == 1 }
+    /// a feature column `x.slice(s![.., j])` is a contiguous slice (ndarray's 1-D `dot` then takes the unrolled path)
+    fn col_contig(&self) -> bool { Held2::<f64>::new(&self.x, self.p(), self.lx, |v| v).view().strides()[0] == 1 }
+    /// a row of the query batch is a contiguous slice
+    fn qrow_contig(&self, q: &[Vec<f64>]) -> bool { self.p() <= 1 || Held2::<f64>::new(q, self.p(), self.lq, |v| v).view().strides()[1] == 1 }
+    /// multi-task fit on targets in a non-standard layout: are the columns of the residual matrix `r` contiguous slices?
+    /// Decided by performing the operations of compute_intercept / block_coordinate_descent on the same layout with the
+    /// same ndarray (`&y - &mean` resp. `y.to_owned()`; their output layout follows the input layout)
+    fn rcol_contig(&self, icpt: bool) -> bool {
+        let yh = Held2::<f64>::new(&self.y, self.t(), self.ly, |v| v);
+        let yv = yh.view();
+        let r: Array2<f64> = if icpt {
+            let m = yv.mean_axis(ndarray::Axis(0)).unwrap();
+            let yc = &yv - &m.view().insert_axis(ndarray::Axis(0));
+            yc.view().to_owned()
+        } else { yv.to_owned() };
+        r.strides()[0] == 1
+    }
+    /// layout of the targets as the estimator sees it (1-D targets: only "c", reversed, step 2 exist)
+    fn ly_eff(&self, kind: u64) -> u8 { if kind != K_MTL { match self.ly { 1 => 0, 4 => 2, 5 => 3, l => l } } else { self.ly } }
 }
+
+// ---------------------------------------------------------------------------------------------
+// memory layouts
+// ---------------------------------------------------------------------------------------------
+/// a matrix with the given logical content in one of the LAYOUTS; `store` owns the memory, `view()` is the logical matrix
+#[derive(Clone)]
+struct Held2<T> { store: Array2<T>, lay: u8, wide: bool }
+impl<T: Clone> Held2<T> {
+    fn new(rows: &[Vec<f64>], p: usize, lay: u8, cast: fn(f64) -> T) -> Held2<T> {
+        let n = rows.len();
+        let at = |i: usize, j: usize| cast(rows[i][j]);
+        let junk = cast(777.0);
+        let wide = (n + p) % 2 == 0;
+        let store = match lay {
+            1 => Array2::from_shape_fn((n, p).f(), |(i, j)| at(i, j)),
+            2 => Array2::from_shape_fn((n, p), |(i, j)| at(n - 1 - i, j)),
+            3 => Array2::from_shape_fn((n, p), |(i, j)| at(n - 1 - i, j)).slice(s![..;-1, ..]).to_owned(),
+            4 => Array2::from_shape_fn((n, p), |(i, j)| at(i, p - 1 - j)),
+            5 => Array2::from_shape_fn((n, p), |(i, j)| at(i, p - 1 - j)).slice(s![.., ..;-1]).to_owned(),
+            6 => if wide { Array2::from_shape_fn((n, 2 * p), |(i, j)| if j % 2 == 0 { at(i, j / 2) } else { junk.clone() }) }
+                 else { Array2::from_shape_fn((2 * n, p), |(i, j)| if i % 2 == 0 { at(i / 2, j) } else { junk.clone() }) },
+            _ => Array2::from_shape_fn((n, p), |(i, j)| at(i, j)),
+        };
+        Held2 { store, lay, wide }
+    }
+    /// the store itself is the logical matrix (an owned array, possibly with negative or column-major strides)
+    fn owned(&self) -> bool { matches!(self.lay, 0 | 1 | 3 | 5) }
+    fn view(&self) -> ArrayView2<T> {
+        match self.lay {
+            2 => self.store.slice(s![..;-1, ..]),
+            4 => self.store.slice(s![.., ..;-1]),
+            6 => if self.wide { self.store.slice(s![.., ..;2]) } else { self.store.slice(s![..;2, ..]) },
+            _ => self.store.view(),
+        }
+    }
+}
+#[derive(Clone)]
+struct Held1<T> { store: Array1<T>, lay: u8 }
+impl<T: Clone> Held1<T> {
+    fn new(v: &[f64], lay: u8, cast: fn(f64) -> T) -> Held1<T> {
+        let n = v.len();
+        let junk = cast(777.0);
+        let lay = match lay { 1 => 0, 4 => 2, 5 => 3, l => l };
+        let store = match lay {
+            2 => Array1::from_shape_fn(n, |i| cast(v[n - 1 - i])),
+            3 => Array1::from_shape_fn(n, |i| cast(v[n - 1 - i])).slice(s![..;-1]).to_owned(),
+            6 => Array1::from_shape_fn(2 * n, |i| if i % 2 == 0 { cast(v[i / 2]) } else { junk.clone() }),
+            _ => Array1::from_shape_fn(n, |i| cast(v[i])),
+        };
+        Held1 { store, lay }
+    }
+    fn owned(&self) -> bool { matches!(self.lay, 0 | 3) }
+    fn view(&self) -> ArrayView1<T> {
+        match self.lay { 2 => self.store.slice(s![..;-1]), 6 => self.store.slice(s![..;2]), _ => self.store.view() }
+    }
+}
+/// call a generic runner with the records / targets either as the owned arrays or as views, according to the layout
+macro_rules! with_layouts {
+    ($f:ident, $xh:expr, $yh:expr, $($rest:expr),*) => {
+        match ($xh.owned(), $yh.owned()) {
+            (true, true) => $f($xh.store.clone(), $yh.store.clone(), $($rest),*),
+            (true, false) => $f($xh.store.clone(), $yh.view(), $($rest),*),
+            (false, true) => $f($xh.view(), $yh.store.clone(), $($rest),*),
+            (false, false) => $f($xh.view(), $yh.view(), $($rest),*),
+        }
+    };
+}
+fn id64(v: f64) -> f64 { v }
+fn to32(v: f64) -> f32 { v as f32 }
 
 /// exact test sum(v) == 0 for finite doubles of moderate exponent range (falls back to false)
 fn exact_sum_is_zero(v: &[f64]) -> bool {
@@ -173,7 +262,7 @@ fn gen_data(r: &mut Sm64, fam: u64, t: usize, maxn: usize, force_p: Option<usize
     let mut y = gen_y(r, &x, t);
     if short { for row in y.iter_mut() { for v in row.iter_mut() { *v = (*v as f32) as f64; } } }
     let forder = r.chance(0.15);
-    Data { x, y, fam, forder }
+    Data::new(x, y, fam, forder)
 }
 
 // ---------------------------------------------------------------------------------------------
@@ -224,74 +313,112 @@ fn mtl_params(h: &Hp) -> MultiTaskElasticNetParams<f64> {
 
 fn rows2(a: &Array2<f64>) -> Vec<Vec<f64>> { a.rows().into_iter().map(|r| r.to_vec()).collect() }
 
-fn fit_enet(d: &Data, h: &Hp, q: &Array2<f64>) -> Result<FitOut, String> {
-    let (x, y, h2, q2) = (d.xa(), d.ya1(), h.clone(), q.clone());
-    match guarded(move || {
-        let ds = Dataset::new(x, y);
-        let m = enet_params(&h2).fit(&ds).map_err(|e| format!("{}", e))?;
-        let pred = m.predict(&q2);
-        Ok(FitOut {
-            w: m.hyperplane().iter().map(|v| vec![*v]).collect(),
-            b: vec![m.intercept()],
-            gap: m.duality_gap(),
-            steps: m.n_steps(),
-            pred: pred.iter().map(|v| vec![*v]).collect(),
-        })
-    }) { Ok(r) => r, Err(p) => Err(format!("PANIC: {}", p)) }
+fn enet_params32(h2: &Hp) -> ElasticNetParams<f32> {
+    let mut p = if h2.l1r == 1.0 && h2.how % 2 == 0 { ElasticNet::<f32>::lasso() }
+        else if h2.l1r == 0.0 && h2.how % 2 == 0 { ElasticNet::<f32>::ridge() }
+        else { ElasticNet::<f32>::params() };
+    if !(h2.l1r == DEF_L1R) && !((h2.l1r == 1.0 || h2.l1r == 0.0) && h2.how % 2 == 0) { p = p.l1_ratio(h2.l1r as f32); }
+    if !h2.icpt || h2.how % 3 == 1 { p = p.with_intercept(h2.icpt); }
+    if h2.maxit != DEF_MAXIT { p = p.max_iterations(h2.maxit); }
+    if h2.pen != DEF_PEN { p = p.penalty(h2.pen as f32); }
+    if h2.tol != DEF_TOL { p = p.tolerance(h2.tol as f32); }
+    p
+}
+/// generic runners: records, targets and query batch in whatever storage / layout the caller chose
+fn run_enet<SX: NdData<Elem = f64>, SY: NdData<Elem = f64>>(x: ArrayBase<SX, Ix2>, y: ArrayBase<SY, Ix1>, h: &Hp, qh: &Held2<f64>) -> Result<FitOut, String> {
+    let ds = DatasetBase::new(x, y);
+    let m = enet_params(h).fit(&ds).map_err(|e| format!("{}", e))?;
+    let pred = if qh.owned() { m.predict(&qh.store) } else { m.predict(&qh.view()) };
+    Ok(FitOut { w: m.hyperplane().iter().map(|v| vec![*v]).collect(), b: vec![m.intercept()], gap: m.duality_gap(), steps: m.n_steps(), pred: pred.iter().map(|v| vec![*v]).collect() })
+}
+fn run_enet32<SX: NdData<Elem = f32>, SY: NdData<Elem = f32>>(x: ArrayBase<SX, Ix2>, y: ArrayBase<SY, Ix1>, h: &Hp, qh: &Held2<f32>) -> Result<FitOut, String> {
+    let ds = DatasetBase::new(x, y);
+    let m = enet_params32(h).fit(&ds).map_err(|e| format!("{}", e))?;
+    let pred = if qh.owned() { m.predict(&qh.store) } else { m.predict(&qh.view()) };
+    Ok(FitOut { w: m.hyperplane().iter().map(|v| vec![*v as f64]).collect(), b: vec![m.intercept() as f64], gap: m.duality_gap() as f64, steps: m.n_steps(), pred: pred.iter().map(|v| vec![*v as f64]).collect() })
+}
+fn run_mtl<SX: NdData<Elem = f64>, SY: NdData<Elem = f64>>(x: ArrayBase<SX, Ix2>, y: ArrayBase<SY, Ix2>, h: &Hp, qh: &Held2<f64>) -> Result<FitOut, String> {
+    let ds = DatasetBase::new(x, y);
+    let m = mtl_params(h).fit(&ds).map_err(|e| format!("{}", e))?;
+    let pred = if qh.owned() { m.predict(&qh.store) } else { m.predict(&qh.view()) };
+    Ok(FitOut { w: rows2(m.hyperplane()), b: m.intercept().to_vec(), gap: m.duality_gap(), steps: m.n_steps(), pred: rows2(&pred) })
+}
+fn run_ols<SX: NdData<Elem = f64>, SY: NdData<Elem = f64>>(x: ArrayBase<SX, Ix2>, y: ArrayBase<SY, Ix1>, icpt: bool, qh: &Held2<f64>) -> Result<FitOut, String> {
+    let ds = DatasetBase::new(x, y);
+    let lr = if icpt { LinearRegression::new() } else { LinearRegression::new().with_intercept(false) };
+    let m = lr.fit(&ds).map_err(|e| format!("{}", e))?;
+    let pred = if qh.owned() { m.predict(&qh.store) } else { m.predict(&qh.view()) };
+    Ok(FitOut { w: m.params().iter().map(|v| vec![*v]).collect(), b: vec![m.intercept()], gap: 0.0, steps: 0, pred: pred.iter().map(|v| vec![*v]).collect() })
+}
+fn run_ols32<SX: NdData<Elem = f32>, SY: NdData<Elem = f32>>(x: ArrayBase<SX, Ix2>, y: ArrayBase<SY, Ix1>, icpt: bool, qh: &Held2<f32>) -> Result<FitOut, String> {
+    let ds = DatasetBase::new(x, y);
+    let lr = if icpt { LinearRegression::new() } else { LinearRegression::new().with_intercept(false) };
+    let m = lr.fit(&ds).map_err(|e| format!("{}", e))?;
+    let pred = if qh.owned() { m.predict(&qh.store) } else { m.predict(&qh.view()) };
+    Ok(FitOut { w: m.params().iter().map(|v| vec![*v as f64]).collect(), b: vec![m.intercept() as f64], gap: 0.0, steps: 0, pred: pred.iter().map(|v| vec![*v as f64]).collect() })
+}
+fn col1(y: &[Vec<f64>]) -> Vec<f64> { y.iter().map(|r| r[0]).collect() }
+fn unpanic(r: Result<Result<FitOut, String>, String>) -> Result<FitOut, String> { match r { Ok(r) => r, Err(p) => Err(format!("PANIC: {}", p)) } }
+
+fn fit_enet(d: &Data, h: &Hp, q: &[Vec<f64>]) -> Result<FitOut, String> {
+    let (xh, yh, qh) = (Held2::new(&d.x, d.p(), d.lx, id64), Held1::new(&col1(&d.y), d.ly, id64), Held2::new(q, d.p(), d.lq, id64));
+    unpanic(guarded(std::panic::AssertUnwindSafe(|| with_layouts!(run_enet, xh, yh, h, &qh))))
 }
 /// the same estimator instantiated at f32; data and hyper-parameters are f32 values (exactly widened to f64 for Coq)
-fn fit_enet32(d: &Data, h: &Hp, q: &Array2<f64>) -> Result<FitOut, String> {
-    let (x, y, h2, q2) = (d.xa().mapv(|v| v as f32), d.ya1().mapv(|v| v as f32), h.clone(), q.mapv(|v| v as f32));
-    match guarded(move || {
-        let ds = Dataset::new(x, y);
-        let mut p = if h2.l1r == 1.0 && h2.how % 2 == 0 { ElasticNet::<f32>::lasso() }
-            else if h2.l1r == 0.0 && h2.how % 2 == 0 { ElasticNet::<f32>::ridge() }
-            else { ElasticNet::<f32>::params() };
-        if !(h2.l1r == DEF_L1R) && !((h2.l1r == 1.0 || h2.l1r == 0.0) && h2.how % 2 == 0) { p = p.l1_ratio(h2.l1r as f32); }
-        if !h2.icpt || h2.how % 3 == 1 { p = p.with_intercept(h2.icpt); }
-        if h2.maxit != DEF_MAXIT { p = p.max_iterations(h2.maxit); }
-        if h2.pen != DEF_PEN { p = p.penalty(h2.pen as f32); }
-        if h2.tol != DEF_TOL { p = p.tolerance(h2.tol as f32); }
-        let m = p.fit(&ds).map_err(|e| format!("{}", e))?;
-        let pred = m.predict(&q2);
-        Ok(FitOut {
-            w: m.hyperplane().iter().map(|v| vec![*v as f64]).collect(),
-            b: vec![m.intercept() as f64],
-            gap: m.duality_gap() as f64,
-            steps: m.n_steps(),
-            pred: pred.iter().map(|v| vec![*v as f64]).collect(),
-        })
-    }) { Ok(r) => r, Err(p) => Err(format!("PANIC: {}", p)) }
+fn fit_enet32(d: &Data, h: &Hp, q: &[Vec<f64>]) -> Result<FitOut, String> {
+    let (xh, yh, qh) = (Held2::new(&d.x, d.p(), d.lx, to32), Held1::new(&col1(&d.y), d.ly, to32), Held2::new(q, d.p(), d.lq, to32));
+    unpanic(guarded(std::panic::AssertUnwindSafe(|| with_layouts!(run_enet32, xh, yh, h, &qh))))
 }
-fn fit_mtl(d: &Data, h: &Hp, q: &Array2<f64>) -> Result<FitOut, String> {
-    let (x, y, h2, q2) = (d.xa(), d.ya2(), h.clone(), q.clone());
-    match guarded(move || {
-        let ds = Dataset::new(x, y);
-        let m = mtl_params(&h2).fit(&ds).map_err(|e| format!("{}", e))?;
-        let pred = m.predict(&q2);
-        Ok(FitOut { w: rows2(m.hyperplane()), b: m.intercept().to_vec(), gap: m.duality_gap(), steps: m.n_steps(), pred: rows2(&pred) })
-    }) { Ok(r) => r, Err(p) => Err(format!("PANIC: {}", p)) }
+fn fit_mtl(d: &Data, h: &Hp, q: &[Vec<f64>]) -> Result<FitOut, String> {
+    let (xh, yh, qh) = (Held2::new(&d.x, d.p(), d.lx, id64), Held2::new(&d.y, d.t(), d.ly, id64), Held2::new(q, d.p(), d.lq, id64));
+    unpanic(guarded(std::panic::AssertUnwindSafe(|| with_layouts!(run_mtl, xh, yh, h, &qh))))
 }
-fn fit_ols_raw(x: Array2<f64>, y: Array1<f64>, icpt: bool, q: Array2<f64>) -> Result<FitOut, String> {
-    match guarded(move || {
-        let ds = Dataset::new(x, y);
-        let lr = if icpt { LinearRegression::new() } else { LinearRegression::new().with_intercept(false) };
-        let m = lr.fit(&ds).map_err(|e| format!("{}", e))?;
-        let pred = m.predict(&q);
-        Ok(FitOut { w: m.params().iter().map(|v| vec![*v]).collect(), b: vec![m.intercept()], gap: 0.0, steps: 0, pred: pred.iter().map(|v| vec![*v]).collect() })
-    }) { Ok(r) => r, Err(p) => Err(format!("PANIC: {}", p)) }
+fn fit_ols(d: &Data, icpt: bool, q: &[Vec<f64>]) -> Result<FitOut, String> {
+    let (xh, yh, qh) = (Held2::new(&d.x, d.p(), d.lx, id64), Held1::new(&col1(&d.y), d.ly, id64), Held2::new(q, d.p(), d.lq, id64));
+    unpanic(guarded(std::panic::AssertUnwindSafe(|| with_layouts!(run_ols, xh, yh, icpt, &qh))))
+}
+/// LinearRegression on an explicitly given (owned) design, used by the augmented-design differential; the targets come
+/// in the layout `ly` (an owned reversed target keeps its negative stride through `to_owned`, and the QR sums follow it)
+fn fit_ols_raw(x: Array2<f64>, y: &[f64], ly: u8, icpt: bool, q: Array2<f64>) -> Result<FitOut, String> {
+    let qh = Held2 { store: q, lay: 0, wide: false };
+    let yh = Held1::new(y, ly, id64);
+    unpanic(guarded(std::panic::AssertUnwindSafe(|| if yh.owned() { run_ols(x, yh.store.clone(), icpt, &qh) } else { run_ols(x, yh.view(), icpt, &qh) })))
+}
+/// LinearRegression instantiated at f32; data are f32 values (exactly widened to f64 for Coq)
+fn fit_ols32(d: &Data, icpt: bool, q: &[Vec<f64>]) -> Result<FitOut, String> {
+    let (xh, yh, qh) = (Held2::new(&d.x, d.p(), d.lx, to32), Held1::new(&col1(&d.y), d.ly, to32), Held2::new(q, d.p(), d.lq, to32));
+    unpanic(guarded(std::panic::AssertUnwindSafe(|| with_layouts!(run_ols32, xh, yh, icpt, &qh))))
 }
 
-/// LinearRegression instantiated at f32; data are f32 values (exactly widened to f64 for Coq)
-fn fit_ols32(d: &Data, icpt: bool, q: &Array2<f64>) -> Result<FitOut, String> {
-    let (x, y, q2) = (d.xa().mapv(|v| v as f32), d.ya1().mapv(|v| v as f32), q.mapv(|v| v as f32));
-    match guarded(move || {
-        let ds = Dataset::new(x, y);
-        let lr = if icpt { LinearRegression::new() } else { LinearRegression::new().with_intercept(false) };
-        let m = lr.fit(&ds).map_err(|e| format!("{}", e))?;
-        let pred = m.predict(&q2);
-        Ok(FitOut { w: m.params().iter().map(|v| vec![*v as f64]).collect(), b: vec![m.intercept() as f64], gap: 0.0, steps: 0, pred: pred.iter().map(|v| vec![*v as f64]).collect() })
-    }) { Ok(r) => r, Err(p) => Err(format!("PANIC: {}", p)) }
+/// robustness sweep "layout x scale": the SAME logical problem in another memory layout and / or scaled by a power
+/// of two.  `key` rotates through the combinations (no extra cases).  Scaling: joint = records and targets times s,
+/// penalty times s^2 (coefficients unchanged, intercept and predictions times s, duality gap times s^2); targets-only
+/// = targets times s and the penalty times s where that is covariant (pure l1, pure l2 or no penalty: coefficients,
+/// intercept times s).  Tolerances of the solvers are relative (gap < tol * |y|^2) and are not changed.
+fn vary(d: &Data, h: &Hp, q: &[Vec<f64>], key: u64, f32v: bool, allow_scale: bool) -> (Data, Hp, Vec<Vec<f64>>) {
+    let (mut d, mut h, mut q) = (d.clone(), h.clone(), q.to_vec());
+    if d.lx == 0 { d.lx = [0u8, 1, 2, 3, 4, 5, 6][(key % 7) as usize]; }
+    d.ly = [0u8, 0, 0, 2, 0, 3, 0, 6, 0, 1, 0, 5][((key / 7) % 12) as usize];
+    d.lq = [0u8, 1, 2, 4, 6][((key / 3) % 5) as usize];
+    let ks: &[i32] = if f32v { &[0, 0, 0, 20, 0, -20] } else { &[0, 0, 0, 0, -40, -20, 20, 40] };
+    let mut k = if allow_scale { ks[((key / 2) % ks.len() as u64) as usize] } else { 0 };
+    let target_ok = h.pen == 0.0 || h.l1r == 0.0 || h.l1r == 1.0;
+    let mut mode = if k == 0 { 0 } else if target_ok && (key / 16) % 2 == 0 { 2 } else { 1 };
+    // binary32: a joint down-scaling by 2^-20 puts every squared column norm under f32::EPSILON (finding F50 on all columns)
+    if f32v && k < 0 && mode == 1 { k = 0; mode = 0; }
+    if mode != 0 {
+        let s = (2.0f64).powi(k);
+        for row in d.y.iter_mut() { for v in row.iter_mut() { *v *= s; } }
+        if mode == 1 {
+            for row in d.x.iter_mut() { for v in row.iter_mut() { *v *= s; } }
+            for row in q.iter_mut() { for v in row.iter_mut() { *v *= s; } }
+            h.pen *= s * s;
+        } else if h.l1r == 1.0 {
+            h.pen *= s;
+        }
+    }
+    d.sk = k; d.sm = mode;
+    (d, h, q)
 }
 
 fn gen_queries(r: &mut Sm64, d: &Data) -> Vec<Vec<f64>> {
@@ -324,7 +451,8 @@ fn is_ols(kind: u64) -> bool { kind == K_OLS || kind == K_OLS32 }
 fn case_term(id: u64, kind: u64, replay: bool, fixed_point: bool, d: &Data, h: &Hp, f: &FitOut, q: &[Vec<f64>]) -> String {
     let f32run = kind == K_ENET32 || kind == K_OLS32;
     let kind = if kind == K_ENET32 { K_ENET } else if kind == K_OLS32 { K_OLS } else { kind };
-    let flags = (replay as u64) | ((d.col_contig() as u64) << 1) | ((fixed_point as u64) << 2) | ((f32run as u64) << 3);
+    let flags = (replay as u64) | ((d.col_contig() as u64) << 1) | ((fixed_point as u64) << 2) | ((f32run as u64) << 3)
+        | ((!d.qrow_contig(q) as u64) << 4) | (((d.ly_eff(kind) != 0) as u64) << 5) | (((kind == K_MTL && d.ly_eff(kind) != 0 && d.rcol_contig(h.icpt)) as u64) << 6);
     // hyper-parameters as the f32 values the estimator sees
     let hh = if f32run { Hp { pen: h.pen as f32 as f64, l1r: h.l1r as f32 as f64, tol: h.tol as f32 as f64, ..h.clone() } } else { h.clone() };
     let h = &hh;
@@ -431,9 +559,14 @@ impl Ctx {
             if h.icpt { "fit_intercept" } else { "no_intercept" }.into(),
             if d.centred() { "centred" } else { "uncentred" }.into(),
             format!("fam_{}", d.fam),
+            format!("lx_{}", LAYOUTS[d.lx as usize]),
+            format!("ly_{}", LAYOUTS[d.ly_eff(kind) as usize]),
+            format!("lq_{}", LAYOUTS[d.lq as usize]),
+            format!("scale_{}_{}", d.sk, ["none", "joint", "targets"][d.sm as usize]),
         ];
         // a non-zero feature column whose squared norm is <= f64::EPSILON (the solvers skip it: approx::abs_diff_eq!(norm, 0))
-        if !is_ols(kind) && (0..d.p()).any(|j| { let q: f64 = d.x.iter().map(|row| row[j] * row[j]).sum(); q > 0.0 && q <= f64::EPSILON }) {
+        let eps_kind = if kind == K_ENET32 { f32::EPSILON as f64 } else { f64::EPSILON };
+        if !is_ols(kind) && (0..d.p()).any(|j| { let q: f64 = d.x.iter().map(|row| row[j] * row[j]).sum(); q > 0.0 && q <= eps_kind }) {
             t.push("tiny_column".into());
         }
         // regression class of finding F52 (repaired): started from w = 0, r = y, the coordinate minimisers
@@ -449,19 +582,21 @@ impl Ctx {
             None => String::new(),
         };
         format!(
-            "{{\"stream\": {}, \"kind\": {}, \"n\": {}, \"p\": {}, \"t\": {}, \"family\": {}, \"f_order\": {}, \"penalty\": {}, \"l1_ratio\": {}, \"with_intercept\": {}, \"tolerance\": {}, \"max_iterations\": {}, \"X\": {}, \"Y\": {}{}}}",
-            jstr(stream), kind, d.n(), d.p(), d.t(), d.fam, d.forder, jnum(h.pen), jnum(h.l1r), h.icpt, jnum(h.tol), h.maxit, jmat(&d.x), jmat(&d.y), fo
+            "{{\"stream\": {}, \"kind\": {}, \"n\": {}, \"p\": {}, \"t\": {}, \"family\": {}, \"layout_x\": {}, \"layout_y\": {}, \"layout_q\": {}, \"scale_log2\": {}, \"scale_mode\": {}, \"penalty\": {}, \"l1_ratio\": {}, \"with_intercept\": {}, \"tolerance\": {}, \"max_iterations\": {}, \"X\": {}, \"Y\": {}{}}}",
+            jstr(stream), kind, d.n(), d.p(), d.t(), d.fam, jstr(LAYOUTS[d.lx as usize]), jstr(LAYOUTS[d.ly_eff(kind) as usize]), jstr(LAYOUTS[d.lq as usize]), d.sk, jstr(["none", "joint", "targets"][d.sm as usize]), jnum(h.pen), jnum(h.l1r), h.icpt, jnum(h.tol), h.maxit, jmat(&d.x), jmat(&d.y), fo
         )
     }
     /// one elastic-net / multi-task fit -> one Coq case (or a Rust-side failure)
     fn emit_fit(&mut self, kind: u64, d: &Data, h: &Hp, q: &[Vec<f64>], stream: &str, expect_ok: bool) -> Option<FitOut> {
         let id = self.id;
         self.id += 1;
-        let qa = arr2(q, d.p());
-        let qa2 = qa.clone();
-        let res = match kind { K_ENET => fit_enet(d, h, &qa), K_ENET32 => fit_enet32(d, h, &qa), K_MTL => fit_mtl(d, h, &qa), K_OLS32 => fit_ols32(d, h.icpt, &qa), _ => fit_ols_raw(d.xa(), d.ya1(), h.icpt, qa) };
+        let res = match kind { K_ENET => fit_enet(d, h, q), K_ENET32 => fit_enet32(d, h, q), K_MTL => fit_mtl(d, h, q), K_OLS32 => fit_ols32(d, h.icpt, q), _ => fit_ols(d, h.icpt, q) };
         let kname = match kind { K_ENET => "enet", K_ENET32 => "enet_f32", K_MTL => "mtl", K_OLS32 => "ols_f32", _ => "ols" };
         self.out.bump(&format!("stream_{}", stream));
+        self.out.bump(&format!("layout_x_{}", LAYOUTS[d.lx as usize]));
+        self.out.bump(&format!("layout_y_{}", LAYOUTS[d.ly_eff(kind) as usize]));
+        self.out.bump(&format!("layout_q_{}", LAYOUTS[d.lq as usize]));
+        self.out.bump(&format!("scale_2^{}_{}", d.sk, ["none", "joint", "targets"][d.sm as usize]));
         self.out.bump(&format!("kind_{}", kname));
         self.out.bump(&format!("family_{}", d.fam));
         self.out.bump(&format!("{}_{}", kname, if h.icpt { "intercept" } else { "nointercept" }));
@@ -486,7 +621,12 @@ impl Ctx {
                 // binary32 arithmetic is emulated in Coq (SpecFloat, about 60 us per operation): the replay is bounded by
                 // the number of coefficient updates times n (the stream keeps n <= 22, p <= 5, budget <= 1000 sweeps, so
                 // the quick-tier bound already covers every run of the stream, the 1000-sweep ridge runs included)
-                let replay = if kind == K_ENET32 { (f.steps as usize) * d.n() * d.p() <= self.replay_cap32 } else { !is_ols(kind) && f.steps <= self.replay_cap };
+                // targets in a non-standard layout: ndarray's `mean_axis` / `dot` legitimately sum in another order.  The single-task
+                // solver with intercept is still replayed (from the implementation's intercept, which is compared with the exact
+                // mean), so is the multi-task solver; single-task fits without intercept on such targets are judged by the
+                // oracle only (the solver's vector dot products then run in another order)
+                let modelled = d.ly_eff(kind) == 0 || kind == K_MTL || ((kind == K_ENET || kind == K_ENET32) && h.icpt);
+                let replay = modelled && if kind == K_ENET32 { (f.steps as usize) * d.n() * d.p() <= self.replay_cap32 } else { !is_ols(kind) && f.steps <= self.replay_cap };
                 // a run that used its whole budget may still sit on a fixed point of the sweep: two more sweeps
                 // leave every coefficient bit-identical (this is how ridge and penalty-0 fits end: their duality
                 // gap degenerates to the primal objective and never falls under the tolerance)
@@ -494,7 +634,7 @@ impl Ctx {
                 if !is_ols(kind) && !converged && h.maxit >= 100 && all_finite(&f) {
                     let mut h2 = h.clone();
                     h2.maxit = h.maxit + 2;
-                    let again = if kind == K_ENET { fit_enet(d, &h2, &qa2) } else if kind == K_ENET32 { fit_enet32(d, &h2, &qa2) } else { fit_mtl(d, &h2, &qa2) };
+                    let again = if kind == K_ENET { fit_enet(d, &h2, q) } else if kind == K_ENET32 { fit_enet32(d, &h2, q) } else { fit_mtl(d, &h2, q) };
                     if let Ok(g) = again {
                         fixed_point = g.w.iter().flatten().zip(f.w.iter().flatten()).all(|(a, b)| a.to_bits() == b.to_bits());
                     }
@@ -516,7 +656,7 @@ impl Ctx {
                 if !all_finite(&f) { extra.push("non_finite_output"); }
                 if !is_ols(kind) {
                     self.out.bump(if converged { "solver_converged" } else if fixed_point { "solver_budget_exhausted_at_fixed_point" } else { "solver_budget_exhausted_not_converged" });
-                    self.out.bump(if replay { "replayed_bit_exactly" } else { "oracle_only_too_many_sweeps" });
+                    self.out.bump(if replay { "replayed_bit_exactly" } else if !modelled { "oracle_only_target_layout" } else { "oracle_only_too_many_sweeps" });
                     if kind == K_ENET32 {
                         self.out.bump(if replay { "f32_replayed_bit_exactly" } else { "f32_oracle_only" });
                         if replay && f.steps >= 100 { self.out.bump("f32_replayed_100_or_more_sweeps"); }
@@ -561,6 +701,7 @@ fn main() {
     let mut rng = Sm64::new(args.seed);
     let thorough = args.tier == "thorough";
     let out = Out::new(&args.out, args.shards, "C11.Corr", "case", args.only);
+    let mut vk: u64 = 0; // rotates memory layouts and power-of-two scalings over the cases
     let mut cx = Ctx { out, id: 0, replay_cap: if thorough { 20000 } else { 1000 }, replay_cap32: 160000 };
     let maxn = if thorough { 40 } else { 26 };
 
@@ -576,9 +717,10 @@ fn main() {
                 for (pen, l1r) in hps.iter() {
                     for icpt in [false, true] {
                         cnt += 1;
-                        let d = Data { x: vec![vec![*a], vec![*b], vec![*c]], y: y.iter().map(|v| vec![*v]).collect(), fam: 9, forder: false };
+                        let d = Data::new(vec![vec![*a], vec![*b], vec![*c]], y.iter().map(|v| vec![*v]).collect(), 9, false);
                         let h = Hp { pen: *pen, l1r: *l1r, icpt, tol: if cnt % 3 == 0 { 0.0 } else { 1e-4 }, maxit: if cnt % 3 == 0 { 30 } else { 1000 }, how: cnt % 6 };
                         let q = vec![vec![2.0], vec![-0.5]];
+                        let (d, h, q) = vary(&d, &h, &q, cnt, false, true);
                         cx.emit_fit(K_ENET, &d, &h, &q, "small_exhaustive", true);
                     }
                 }
@@ -591,9 +733,10 @@ fn main() {
             for y1 in tys.iter() { for y2 in tys.iter() {
                 for (pen, l1r) in [(0.25, 0.5), (0.5, 1.0), (0.125, 0.0)].iter() {
                     cnt += 1;
-                    let d = Data { x: (0..4).map(|i| vec![c1[i], c2[i]]).collect(), y: (0..4).map(|i| vec![y1[i], y2[i]]).collect(), fam: 9, forder: false };
+                    let d = Data::new((0..4).map(|i| vec![c1[i], c2[i]]).collect(), (0..4).map(|i| vec![y1[i], y2[i]]).collect(), 9, false);
                     let h = Hp { pen: *pen, l1r: *l1r, icpt: cnt % 2 == 0, tol: 1e-4, maxit: 1000, how: cnt % 6 };
                     let q = vec![vec![2.0, 1.0]];
+                    let (d, h, q) = vary(&d, &h, &q, cnt, false, true);
                     cx.emit_fit(K_MTL, &d, &h, &q, "small_exhaustive", true);
                 }
             }}
@@ -608,6 +751,8 @@ fn main() {
         let d = gen_data(&mut r, fam, 1, maxn, None);
         let h = pick_hp(&mut r, fam, true, thorough);
         let q = gen_queries(&mut r, &d);
+        vk += 1;
+        let (d, h, q) = vary(&d, &h, &q, vk, false, true);
         cx.emit_fit(K_ENET, &d, &h, &q, "enet_converge", true);
     }
 
@@ -618,8 +763,10 @@ fn main() {
         let mut r = rng.fork();
         let fam = *r.pick(&[0u64, 1, 2, 3, 5, 6]);
         let d = gen_data(&mut r, fam, 1, maxn, None);
-        let mut h = pick_hp(&mut r, fam, false, thorough);
+        let h = pick_hp(&mut r, fam, false, thorough);
         let q = gen_queries(&mut r, &d);
+        vk += 1;
+        let (d, mut h, q) = vary(&d, &h, &q, vk, false, true);
         let mut prev: Option<f64> = None;
         for b in 0..=6u32 {
             h.maxit = b;
@@ -651,6 +798,8 @@ fn main() {
         let converge = i % 4 != 0;
         let h = pick_hp(&mut r, fam, converge, thorough);
         let q = gen_queries(&mut r, &d);
+        vk += 1;
+        let (d, h, q) = vary(&d, &h, &q, vk, false, true);
         cx.emit_fit(K_MTL, &d, &h, &q, if converge { "mtl_converge" } else { "mtl_budget" }, true);
     }
 
@@ -670,6 +819,8 @@ fn main() {
         if h.tol != 0.0 && h.tol < 1e-6 { h.tol = 1e-6; }     // below the resolution of f32 nothing converges
         let mut q = gen_queries(&mut r, &d);
         for row in q.iter_mut() { for v in row.iter_mut() { *v = (*v as f32) as f64; } }
+        vk += 1;
+        let (d, h, q) = vary(&d, &h, &q, vk, true, true);
         cx.emit_fit(K_ENET32, &d, &h, &q, "enet_f32", true);
     }
 
@@ -683,6 +834,8 @@ fn main() {
         h.pen = *r.pick(&[0.0, 1e-3]);
         h.l1r = *r.pick(&[0.0, 0.5]);
         let q = gen_queries(&mut r, &d);
+        vk += 1;
+        let (d, h, q) = vary(&d, &h, &q, vk, false, false);
         cx.emit_fit(if t == 1 { K_ENET } else { K_MTL }, &d, &h, &q, "tiny_column", true);
     }
 
@@ -700,6 +853,8 @@ fn main() {
         h.l1r = 0.0;
         h.icpt = false;
         let q = gen_queries(&mut r, &d);
+        vk += 1;
+        let (d, h, q) = vary(&d, &h, &q, vk, false, false);
         cx.emit_fit(if t == 1 { K_ENET } else { K_MTL }, &d, &h, &q, "tiny_target", true);
     }
 
@@ -714,6 +869,8 @@ fn main() {
         if icpt && d.n() <= d.p() + 1 { continue; }
         let h = Hp { pen: 0.0, l1r: 0.0, icpt, tol: 0.0, maxit: 0, how: 0 };
         let q = gen_queries(&mut r, &d);
+        vk += 1;
+        let (d, h, q) = vary(&d, &h, &q, vk, false, true);
         let first_id = cx.id;
         if let Some(f) = cx.emit_fit(K_OLS, &d, &h, &q, "ols", true) {
             if icpt {
@@ -723,7 +880,7 @@ fn main() {
                 let mut aug = Array2::<f64>::ones((n, p + 1).f());
                 for i in 0..n { for j in 0..p { aug[[i, j]] = d.x[i][j]; } }
                 let qa = Array2::<f64>::zeros((1, p + 1));
-                match fit_ols_raw(aug, d.ya1(), false, qa) {
+                match fit_ols_raw(aug, &col1(&d.y), d.ly, false, qa) {
                     Ok(g) => {
                         let same = (0..p).all(|j| g.w[j][0].to_bits() == f.w[j][0].to_bits()) && g.w[p][0].to_bits() == f.b[0].to_bits() && g.b[0] == 0.0;
                         if !same {
@@ -775,18 +932,20 @@ fn main() {
         let noise = *r.pick(&[0.0, 0.1, 1.0, 1.0]);
         let y: Vec<Vec<f64>> = (0..n).map(|k| { let v = b0 + (0..p).map(|j| cols[j][k] * w[j]).sum::<f64>() + noise * r.gauss(); vec![if f32v { (v as f32) as f64 } else { v }] }).collect();
         let x: Vec<Vec<f64>> = (0..n).map(|k| (0..p).map(|j| cols[j][k]).collect()).collect();
-        let d = Data { x, y, fam: 10 + variant as u64, forder: r.chance(0.15) };
+        let d = Data::new(x, y, 10 + variant as u64, r.chance(0.15));
         // offsets make the design ill-conditioned only together with the constant column
         let icpt = if variant == 1 { r.chance(0.6) } else { r.chance(0.9) };
         let h = Hp { pen: 0.0, l1r: 0.0, icpt, tol: 0.0, maxit: 0, how: 0 };
         let mut q = gen_queries(&mut r, &d);
         if f32v { for row in q.iter_mut() { for v in row.iter_mut() { *v = (*v as f32) as f64; } } }
+        vk += 1;
+        let (d, h, q) = vary(&d, &h, &q, vk, f32v, true);
         cx.emit_fit(if f32v { K_OLS32 } else { K_OLS }, &d, &h, &q, ["ols_offset", "ols_scales", "ols_offset_f32"][variant], true);
     }
 
     // ---- stream E: hyper-parameter guard of the elastic-net builders (error paths) ----
     {
-        let d = Data { x: vec![vec![1.0], vec![2.0], vec![4.0]], y: vec![vec![1.0], vec![0.0], vec![2.0]], fam: 9, forder: false };
+        let d = Data::new(vec![vec![1.0], vec![2.0], vec![4.0]], vec![vec![1.0], vec![0.0], vec![2.0]], 9, false);
         let bad: [(f64, f64, f64, bool); 10] = [
             (-1.0, 0.5, 1e-4, false), (-1e-300, 0.5, 1e-4, false), (1.0, -0.1, 1e-4, false), (1.0, 1.5, 1e-4, false), (1.0, 0.5, -1e-9, false),
             (0.0, 0.0, 0.0, true), (1.0, 1.0, 1e-4, true), (1e3, 0.5, 1.0, true), (1.0, f64::NAN, 1e-4, false), (f64::NEG_INFINITY, 0.5, 1e-4, false),
